@@ -57,6 +57,8 @@ fn set(n: u16, idx: u16, v: u16) -> u16 {
 fn enqueue(q: &AtomicU16, val: u16) {
     let mut current = q.load(Ordering::Relaxed);
     loop {
+        #[cfg(feature = "verif-hooks")]
+        signal_hook_registry::verif::point(signal_hook_registry::verif::site::CH_ENQ_ITER, q as *const AtomicU16 as usize, current as usize);
         let empty = (0..SLOTS as u16)
             .find(|i| get(current, *i) == 0)
             .expect("No empty slot available");
@@ -66,14 +68,20 @@ fn enqueue(q: &AtomicU16, val: u16) {
             Err(changed) => current = changed, // And retry with the changed value
         }
     }
+    #[cfg(feature = "verif-hooks")]
+    signal_hook_registry::verif::point(signal_hook_registry::verif::site::CH_ENQ_OK, q as *const AtomicU16 as usize, val as usize);
 }
 
 fn dequeue(q: &AtomicU16) -> Option<u16> {
     let mut current = q.load(Ordering::Relaxed);
     loop {
+        #[cfg(feature = "verif-hooks")]
+        signal_hook_registry::verif::point(signal_hook_registry::verif::site::CH_DEQ_ITER, q as *const AtomicU16 as usize, current as usize);
         let val = current & MASK;
         // It's completely empty
         if val == 0 {
+            #[cfg(feature = "verif-hooks")]
+            signal_hook_registry::verif::point(signal_hook_registry::verif::site::CH_DEQ_EMPTY, q as *const AtomicU16 as usize, 0);
             break None;
         }
         let modified = current >> BITS;
@@ -135,7 +143,11 @@ impl<T> Channel<T> {
     /// If the value doesn't fit, it is silently dropped. Never blocks.
     pub fn send(&self, val: T) {
         if let Some(empty_idx) = dequeue(&self.empty) {
+            #[cfg(feature = "verif-hooks")]
+            signal_hook_registry::verif::point(signal_hook_registry::verif::site::CH_SEND_CELL_W, self as *const Self as usize, empty_idx as usize);
             unsafe { *self.storage[empty_idx as usize - 1].get() = Some(val) };
+            #[cfg(feature = "verif-hooks")]
+            signal_hook_registry::verif::point(signal_hook_registry::verif::site::CH_SEND_FILLED, self as *const Self as usize, empty_idx as usize);
             enqueue(&self.full, empty_idx);
         }
     }
@@ -145,9 +157,13 @@ impl<T> Channel<T> {
     /// Or returns `None` if the channel is empty. Never blocks.
     pub fn recv(&self) -> Option<T> {
         dequeue(&self.full).map(|idx| {
+            #[cfg(feature = "verif-hooks")]
+            signal_hook_registry::verif::point(signal_hook_registry::verif::site::CH_RECV_CELL_R, self as *const Self as usize, idx as usize);
             let result = unsafe { &mut *self.storage[idx as usize - 1].get() }
                 .take()
                 .expect("Full slot with nothing in it");
+            #[cfg(feature = "verif-hooks")]
+            signal_hook_registry::verif::point(signal_hook_registry::verif::site::CH_RECV_TAKEN, self as *const Self as usize, idx as usize);
             enqueue(&self.empty, idx);
             result
         })
